@@ -9,7 +9,7 @@ ID = "C13"
 LIMIT = 30.0
 RULE = ("triangle meshes: grids/height fields (obtuse, scalene), fans, annuli, polyhedra, tori, Delaunay, unions, books, Moebius, "
         "thin zig-zag strips (aspect 1e-3..1e-7), equilateral patches; flips, relabelling, unused vertices, scales 1e-4..1e3, "
-        "translations up to 1e3, float32; tet meshes for avg_edge_length; offsets d in {+-0.1, 0.5, -2}; two successive offsets on one "
+        "translations up to 1e3 and one by 1e6 diameters (avg_edge_length, volume), float32; tet meshes for avg_edge_length; offsets d in {+-0.1, 0.5, -2}; two successive offsets on one "
         "object. distinct = hash of the case; non-trivial = at least one non-right scalene triangle (quality not in {1, sqrt(3)/2})")
 TRUSTED = ["np.bincount / np.add.at / np.sum / np.mean summation order (modelled up to rounding)"]
 ASSUMPTIONS = ["all comparisons at 1e-9 relative to the vector scale (1e-4 for float32 input)"]
@@ -116,6 +116,13 @@ def _measures(m):
     return out
 
 
+def _far_shift(v64, case):
+    import random
+    r = random.Random(case.get("tseed", 0) + 17)
+    d = np.array([r.gauss(0, 1) for _ in range(3)])
+    return d / np.linalg.norm(d) * (np.abs(v64 - v64.mean(0)).max() + 1e-300) * 1e6
+
+
 def run_impl(case):
     import random
     from lapy import Solver, TetMesh, TriaMesh
@@ -125,6 +132,8 @@ def run_impl(case):
     try:
         if case["kind"] == "tet":
             out["avg_edge"] = float(TetMesh(v, t).avg_edge_length())
+            v64 = np.array(case["v"], dtype=float)
+            out["avg_edge_far"] = float(TetMesh(v64 + _far_shift(v64, case), t.copy()).avg_edge_length())
             return out
         m = TriaMesh(v.copy(), t.copy())
         out.update(_measures(m))
@@ -159,6 +168,8 @@ def run_impl(case):
         out["scaled"] = _measures(TriaMesh(v64 * sc, t.copy()))
         out["translated"] = _measures(TriaMesh(v64 + np.array([3.7, -120.0, 41.5]), t.copy()))
         out["flipped"] = _measures(TriaMesh(v64.copy(), t[:, [0, 2, 1]].copy()))
+        # world coordinates: 1e6 diameters away from the origin
+        out["far"] = _measures(TriaMesh(v64 + _far_shift(v64, case), t.copy()))
     except Exception as e:
         out["error"] = core.errkind(e)
         out["error_msg"] = str(e)[:300]
@@ -215,6 +226,8 @@ def oracle(case, out):
         ref = np.mean([np.linalg.norm(p[a] - p[b]) for a, b in es])
         if abs(out["avg_edge"] - ref) > rt * ref:
             bad("tet_avg_edge_length_is_mean_over_unique_edges", f"{out['avg_edge']} vs {ref}")
+        if abs(out["avg_edge_far"] - ref) > max(rt, 1e-6) * ref:
+            bad("tet_avg_edge_length_translation_invariant", f"{out['avg_edge_far']} vs {ref} after a shift by 1e6 diameters")
         return V
     P0, P1, P2 = p[t[:, 0]], p[t[:, 1]], p[t[:, 2]]
     cr = np.cross(P1 - P0, P2 - P0)
@@ -314,6 +327,11 @@ def oracle(case, out):
             bad("scale_with_proper_power", "area~s^2, avg edge~s, quality~s^0 violated")
         if closed and oriented and not isinstance(Sx["volume"], str) and not rel(Sx["volume"], s ** 3 * out["volume"]) and abs(vol) > 1e-6 * vs:
             bad("volume_scales_with_cube", f"{Sx['volume']} vs {s ** 3 * out['volume']}")
+        Fx = out["far"]
+        if abs(Fx["avg_edge"] - out["avg_edge"]) > 1e-6 * out["avg_edge"]:
+            bad("avg_edge_length_translation_invariant", f"{Fx['avg_edge']} vs {out['avg_edge']} after a shift by 1e6 diameters")
+        if closed and oriented and not isinstance(Fx["volume"], str) and abs(Fx["volume"] - out["volume"]) > 1e-6 * vs:
+            bad("volume_translation_invariant", f"{Fx['volume']} vs {out['volume']} after a shift by 1e6 diameters")
         tr_scale = (np.abs(p).max() + 120.0) ** 2   # Heron on translated coordinates: edges from large numbers
         if not (abs(Tx["area"] - out["area"]) <= (1e-7 + hr) * out["area"] + 1e-12 * tr_scale):
             bad("area_translation_invariant", "changed")
